@@ -128,6 +128,12 @@ structure Sem (V : Type) where
   natOf : V → Option Nat
   ofNat : Nat → V
   ofBool : Bool → V
+  /-- the Python value of an attribute parameter of the function being run (`none`: not given / not an attribute
+  parameter); like `op`'s reading of `@p` references it is part of the closure the function is run in -/
+  attrLit : Name → Option Lit := fun _ => none
+  /-- names of the function's variables that only ever hold Python scalars (a proof device of the refinement
+  theorems: which variables the invariant does not require to hold tensors; nothing evaluates it) -/
+  pyVars : List Name := []
 
 abbrev Env (V : Type) := Name → Option V
 
